@@ -38,3 +38,23 @@ PROP = dict(
         technique="Lean 4 proof (LTS invariant) + regenerated source facts + concurrent differential stress run",
     ),
 )
+
+
+def before_diff(c):
+    """If a theorem (e.g. a regenerated-fact tie) no longer compiles, the drivers were not picked up by
+    the shared build stage. Build just the engines so that the differential run and the failing-input
+    search still happen (the failed theorem stays a failed obligation)."""
+    import os, shutil
+    import vlib
+    if getattr(c, "lake_ok", True) or not c.harness:
+        return
+    engines = PROP.get("lean_engines", PROP.get("engines", []))
+    ok, _out, _failed = vlib.lake_build(["drv_" + e.lower() for e in engines])
+    if not ok:
+        return
+    for e in engines:
+        src = os.path.join(vlib.LEAN, ".lake", "build", "bin", "drv_" + e.lower())
+        if os.path.exists(src):
+            dst = os.path.join(c.tmp, "drv_" + e.lower())
+            shutil.copy2(src, dst)
+            c.drivers[e] = dst
